@@ -14,6 +14,24 @@ fn lookups() -> Vec<i64> {
     vec![0, 1, -1, 2_147_483_647, 2_147_483_649, -2_147_483_649, 1_720_000_000, 1_688_000_000, 1_709_164_800, TS_MIN, TS_MIN + 1, TS_MAX, TS_MAX - 1, TS_MIN + 366 * 86_400, TS_MAX - 366 * 86_400, TS_MIN + 200 * 86_400, TS_MAX - 100 * 86_400]
 }
 
+/// for structural faults: additionally every transition instant of the base files (and its
+/// neighbours) and +-2^k, so that every interval of a (possibly shifted) table is looked up
+fn wide_lookups() -> Vec<i64> {
+    let mut v = lookups();
+    for t in [-1_000_000_000i64, 954_032_400, 972_781_200, 0, 78_796_800, 94_694_400] {
+        v.extend([t - 1, t, t + 1]);
+    }
+    v.extend([960_000_000, 1_000_000_000, -1_500_000_000]);
+    for k in 0..=47 {
+        v.push(1i64 << k);
+        v.push(-(1i64 << k));
+    }
+    v.retain(|t| (TS_MIN..=TS_MAX).contains(t));
+    v.sort();
+    v.dedup();
+    v
+}
+
 fn hex(b: &[u8]) -> String {
     b.iter().map(|x| format!("{:02x}", x)).collect()
 }
@@ -39,7 +57,7 @@ fn panic_class(msg: &str) -> &'static str {
 fn case_bytes(label: &str, bytes: &[u8], with_local: bool, acc: &mut Acc) {
     acc.transitions += 1;
     acc.states += 1;
-    let ts = lookups();
+    let ts = if label.starts_with("footer") { lookups() } else { wide_lookups() };
     let got = call(|| astrolabe::verif_hooks::tzif_offsets(bytes, &ts));
     let case = || json!({"kind": "bytes", "label": label, "hex": hex(bytes)});
     match &got {
@@ -163,9 +181,9 @@ fn structural_faults(b: &[u8], thorough: bool) -> Vec<(String, Vec<u8>)> {
             out.push((format!("version@{}={}", h + 4, v), m));
         }
     }
-    // every byte: substitutions
+    // every byte: every other value (the complete single-byte fault space)
     for pos in 0..b.len() {
-        for v in [0x00u8, 0x01, 0x0A, 0x2C, 0x30, 0x7F, 0x80, 0xFF] {
+        for v in 0..=255u8 {
             if b[pos] != v {
                 let mut m = b.to_vec();
                 m[pos] = v;
@@ -262,7 +280,7 @@ fn spaces(thorough: bool) -> Vec<(String, u64, String, Box<dyn Fn(u64, &mut Acc)
         let faults = structural_faults(&b, thorough);
         let n = faults.len() as u64;
         let l2 = label.clone();
-        v.push((format!("structural faults of base file {} ({} bytes)", label, b.len()), n + 1, "every truncation, every header count x 8 values (and pairs), version byte x 256, every byte x 8 substitutions, appended garbage".into(), Box::new(move |i, acc| {
+        v.push((format!("structural faults of base file {} ({} bytes)", label, b.len()), n + 1, "every truncation, every header count x 8 values (and pairs), version byte x 256, every byte x every other value, appended garbage; looked up at every base transition instant +-1 s and at +-2^k".into(), Box::new(move |i, acc| {
             if i == n {
                 case_bytes(&format!("{}:unchanged", l2), &b, true, acc);
             } else {
